@@ -1149,3 +1149,34 @@ package regexp2
 //@     invariant RunnerText(r) && r.Runtextpos == old(r.Runtextpos) && len(sets) > 0 && SameFDSet(primary, sets[0]) && r.Runtextpos + primary.Distance <= searchStart
 //@     invariant forall c int {r.Runtext[c]} :: old(r.Runtextpos) + primary.Distance <= c && c < searchStart && c - primary.Distance <= Latest(r) ==> !FDSetsAt(r, sets, c - primary.Distance)
 //@     decreases len(r.Runtext) - searchStart
+
+// ---- literal after a leading set loop ----
+//@ func isASCIIString(s string) (b bool)
+//@   props C03 C10
+//@   ensures b == (forall k int :: 0 <= k && k < len(s) ==> s[k] < 128)
+//@   loop 0:
+//@     invariant 0 <= i && i <= len(s) && forall k int :: 0 <= k && k < i ==> s[k] < 128
+//@     decreases len(s) - i
+
+//@ func indexOfLiteralAfterLoop(r *Runner, literal *syntax.LiteralAfterLoop, searchStart int) (idx int)
+//@   props C03 C10
+//@   requires RunnerText(r) && literal != nil && 0 <= searchStart && searchStart <= len(r.Runtext)
+//@   ensures[range] idx == -1 || (searchStart <= idx && idx < len(r.Runtext))
+//@   ensures[chars] literal.String == "" && len(literal.Chars) > 0 ==> (idx >= 0 ==> helpers.InRunes(literal.Chars, r.Runtext[idx])) &&
+//@                     forall p int {r.Runtext[p]} :: searchStart <= p && p < len(r.Runtext) && (idx < 0 || p < idx) ==> !helpers.InRunes(literal.Chars, r.Runtext[p])
+//@   ensures[char]  literal.String == "" && len(literal.Chars) == 0 ==> (idx >= 0 ==> r.Runtext[idx] == literal.Char) &&
+//@                     forall p int {r.Runtext[p]} :: searchStart <= p && p < len(r.Runtext) && (idx < 0 || p < idx) ==> r.Runtext[p] != literal.Char
+
+//@ func findLiteralAfterLoopLeftToRight(r *Runner, literal *syntax.LiteralAfterLoop) (b bool)
+//@   props C03 C10
+//@   requires RunnerText(r) && (literal != nil && literal.LoopNode != nil && literal.LoopNode.Set != nil ==> syntax.SetOK(literal.LoopNode.Set))
+//@   modifies r.Runtextpos
+//@   ensures[none] (literal == nil || literal.LoopNode == nil || literal.LoopNode.Set == nil) ==> !b && r.Runtextpos == old(r.Runtextpos)
+//@   ensures[hit]  b ==> old(r.Runtextpos) <= r.Runtextpos && r.Runtextpos <= Latest(r)
+//@   ensures[miss] !b && literal != nil && literal.LoopNode != nil && literal.LoopNode.Set != nil ==> r.Runtextpos == r.Runtextend
+//@   loop 0:
+//@     invariant RunnerText(r) && r.Runtextpos == old(r.Runtextpos) && r.Runtextpos <= searchStart && literal != nil && literal.LoopNode != nil && literal.LoopNode.Set != nil
+//@     decreases len(r.Runtext) - searchStart
+//@   loop 1:
+//@     invariant RunnerText(r) && r.Runtextpos == old(r.Runtextpos) && r.Runtextpos <= start && start <= literalIndex && literalIndex < len(r.Runtext) && searchStart <= literalIndex && literal != nil && literal.LoopNode != nil && literal.LoopNode.Set != nil
+//@     decreases start
